@@ -1,6 +1,7 @@
 import SkgVerif.Lemmas.Grouping
 import SkgVerif.Lemmas.Classes
 import SkgVerif.Lemmas.Pairs
+import SkgVerif.Lemmas.CondIdx
 import SkgVerif.Model.Estimators
 import SkgVerif.Gen.EstimatorsExec
 import SkgVerif.Gen.Tables
@@ -114,6 +115,11 @@ theorem C01_alignment (v : List Rat) (dist : Nat → Nat → Rat) (k : Nat)
   · exact ((mem_pairs _ _).1 (List.getElem_mem hk)).2
   · simp [pairDiffs]
   · simp
+
+/-- closed form of the alignment: the pair `(i, j)`, `i < j < n`, is entry
+`n·i − i(i+1)/2 + (j − i − 1)` of the condensed vectors (distances and differences alike) -/
+theorem C01_condensed_index (n i j : ℕ) (hij : i < j) (hj : j < n) :
+    (pairs n)[condIdx n i j]? = some (i, j) := pairs_condIdx n i j hij hj
 
 /-- non-vacuity: a concrete edge list / distance list meets the hypotheses and hits an edge -/
 example : (0 :: [1, 2, 3]).Pairwise (· ≤ · : Rat → Rat → Prop) ∧
